@@ -8,6 +8,7 @@ import Model.Binary
 import Model.Canon
 import Model.Rabin
 import Spec.Normalize
+import Spec.Encode
 
 open Lean Wire
 
@@ -70,6 +71,14 @@ def handle (j : Json) : String :=
       match Spec.normalize FUEL env (wopts j) s (getV j "value") with
       | none => "{\"none\":true}"
       | some v => "{\"ok\":" ++ ofVal v ++ "}"
+  | "spec.enc" =>
+    match parseReq j with
+    | .error e => "{\"perr\":\"" ++ e.name ++ "\"}"
+    | .ok (s, env) =>
+      let o := wopts j
+      match Spec.encode (fun f bs v => (Binary.choose f env o bs v).toOption) FUEL env s (getV j "value") with
+      | none => "{\"none\":true}"
+      | some b => "{\"bytes\":\"" ++ hex b ++ "\"}"
   | "skip" =>
     match parseReq j with
     | .error e => "{\"perr\":\"" ++ e.name ++ "\"}"
